@@ -84,8 +84,9 @@ def coq_absw_case(c, o):
 
 
 def coq_absh_case(c, o, content):
-    return '(%s, %s, (%s, %s, %s, %s, %s))' % (
-        axis_lit(c), qlit(content), oqlit(o[0]), oqlit(o[1]), oqlit(o[2]), blit(o[3]), qlit(o[4]))
+    return '(%s, %s, (%s, %s), (%s, %s, %s, %s, %s))' % (
+        axis_lit(c), qlit(content), qlit(c['minw']), ('None' if c['maxw'] == 'inf' else '(Some %s)' % qlit(c['maxw'])),
+        oqlit(o[0]), oqlit(o[1]), oqlit(o[2]), blit(o[3]), qlit(o[4]))
 
 
 def coq_absr_case(c, o):
@@ -204,13 +205,14 @@ def check_abs_direct(run, rng, thorough, S):
                     rule='32 auto patterns of (left,right,width,margin-left,margin-right) x 2 values per specified term '
                          '(243 per direction) x {ltr,rtl,root} exhaustively, 35% repeated with min/max-width, + random rationals; decorated function '
                          '(handle_min_max_width re-entry); distinct = (pattern, direction, fits?, min?, max?)')
-    cases = gen_axis_cases(rng, n // 2, with_minmax=False, directions=(True,))
+    cases = gen_axis_cases(rng, n // 2, with_minmax=True, directions=(True,))
     for c in cases:
         c['content'] = str(Fraction(rng.randint(0, 300), rng.choice([1, 2, 3])))
     S.add('absolute_height-direct', 'absh', cases, lambda c, o: coq_absh_case(c, o, c['content']),
-                  'absh_judge', 'absh_case', lambda c: (pattern_key(c), fits_key(c)))
-    run.stream_info('absolute_height-direct', rule='32 auto patterns x 2 values per specified term (243) exhaustively + random rationals; '
-                    'content height (used when height stays auto) random')
+                  'absh_judge', 'absh_case', lambda c: (pattern_key(c), fits_key(c), str(c['minw']) != '0', c['maxw'] != 'inf'))
+    run.stream_info('absolute_height-direct', rule='32 auto patterns x 2 values per specified term (243) exhaustively, 35% repeated with min/max-height, '
+                    '+ random rationals; decorated function (handle_min_max_height); content height (used when the '
+                    'height stays auto) random')
     cases = gen_absr(rng, n // 2)
     S.add('absolute_replaced-direct', 'absr', cases, coq_absr_case, 'absr_judge', 'absr_case',
                   lambda c: (pattern_key(c['h']), pattern_key(c['v']), c['ltr'], fits_key(c['h'])))
@@ -501,52 +503,17 @@ def rect_overlap(ax, ay, aw, ah, bx, by, bw, bh):
             and aw > EPS and ah > EPS and bw > EPS and bh > EPS)
 
 
-SPACE = 10.0      # width of a space in the test font at 10px
 
 
-def pulled_up(res):
-    """floats met in a line whose final top is above the one float.py decided (mechanism of finding F51)"""
-    byidx = {r['idx']: r for r in res['recs']}
-    return {r['idx'] for r in res['recs']
-            if r['kind'] == 'float' and r.get('placed') and byidx.get(r['parent'], {}).get('kind') == 'line'
-            and r['y'] < r['placed'][1] - EPS}
-
-
-def shifted_sideways(res):
-    """floats met in a line whose final x differs from the one float.py decided: moved with the text of the line by
-    get_next_linebox's line.translate(offset_x, ...) (text-align, rtl)"""
-    byidx = {r['idx']: r for r in res['recs']}
-    return {r['idx'] for r in res['recs']
-            if r['kind'] == 'float' and r.get('placed') and byidx.get(r['parent'], {}).get('kind') == 'line'
-            and abs(r['x'] - r['placed'][0]) > EPS}
-
-
-def judge_floats_raw(res, believed=False):
+def judge_floats_raw(res):
     """The nine rules of CSS 2.1 9.5.1 and the no-overlap / clear clauses on one rendered document.
     Floats are taken in SOURCE order (a float deferred to the end of its line is a later child of the line box than
-    the floats met after it).  believed=True: floats re-aligned after their placement are put back where float.py
-    placed them (what context.excluded_shapes recorded).
+    the floats met after it).
     Returns [(clause, id, detail, key)], key = hashable identity of the alarm."""
     bad = []
     if res['npages'] != 1:
         return [('single-page', None, res['npages'], ('single-page',))]
     recs = res['recs']
-    moved = set()
-    if believed:
-        moved = pulled_up(res) | (shifted_sideways(res) if believed == 'xy' else set())
-    pu_ = pulled_up(res) if believed else set()
-    sh_ = shifted_sideways(res) if believed == 'xy' else set()
-
-    def at_placement(r):
-        """the float where float.py placed it"""
-        if r['idx'] not in moved:
-            return r
-        return dict(r, x=(r['placed'][0] if r['idx'] in sh_ else r['x']), y=(r['placed'][1] if r['idx'] in pu_ else r['y']))
-
-    def seen_from(r, parent_idx):
-        """an earlier float as it stood when a box of the line `parent_idx` was placed: the floats of a line are
-        re-aligned when that line is finished, so only those of the same line are still where float.py put them"""
-        return at_placement(r) if (believed and r['parent'] == parent_idx and r['idx'] in moved) else r
     floats = sorted((r for r in recs if r['kind'] == 'float'),
                     key=lambda r: (r['src'] if r.get('src') is not None else 10 ** 9, r['idx']))
     byidx = {r['idx']: r for r in recs}
@@ -558,8 +525,7 @@ def judge_floats_raw(res, believed=False):
             # zero-height floats are sent to the page origin (open finding F39); not generated, one corpus case
             add('zero-height-float', f['id'], (f['x'], f['y']), f['idx'])
     for i, f in enumerate(floats):
-        earlier = [seen_from(e, f['parent']) for e in floats[:i]]
-        f = at_placement(f) if believed else f
+        earlier = floats[:i]
         x, y, mw, mh = f['x'], f['y'], f['mw'], f['mh']
         cbx, cbw, cby = f['cbx'], f['cbw'], f['cby']
         if f['bh'] < EPS:
@@ -634,7 +600,6 @@ def judge_floats_raw(res, believed=False):
                     continue
                 if r['parent'] == f['idx']:
                     continue
-                f = seen_from(f, r['idx'])
                 if rect_overlap(rx, ry, rw, rh, f['x'], f['y'], f['mw'], f['mh']):
                     add('%s-overlaps-float' % r['kind'], r['id'], (f['id'], (rx, ry, rw, rh), (f['x'], f['y'], f['mw'], f['mh'])),
                         r['idx'], f['idx'])
@@ -647,58 +612,37 @@ def judge_floats_raw(res, believed=False):
 
 
 def judge_floats(res):
-    """judge_floats_raw + attribution of each single alarm to an open finding, by the finding's own mechanism
-    observed on the very boxes of the alarm; everything else keeps the plain clause signature.
+    """judge_floats_raw; the only open finding left in this area is F39 (zero-height floats sent to the page origin),
+    attributed by its own clause; every other alarm keeps the plain clause signature.  A float whose final position
+    differs from the one float.py decided (re-aligned or moved with the text of its line after its placement: the
+    repaired findings F51, F186, F189) is an alarm of its own.
     Returns [(clause, id, detail, signature or None)]."""
     raw = judge_floats_raw(res)
-    if not raw or raw[0][0] == 'single-page':
+    if raw and raw[0][0] == 'single-page':
         return [(c, e, d, None) for c, e, d, _ in raw]
-    recs = res['recs']
-    byidx = {r['idx']: r for r in recs}
-    pu = pulled_up(res)
-    sh = shifted_sideways(res)
-    believed = {k for _, _, _, k in judge_floats_raw(res, believed='y')} if pu else None
-    believed_xy = {k for _, _, _, k in judge_floats_raw(res, believed='xy')} if sh else None
-    floats = [r for r in recs if r['kind'] == 'float']
+    byidx = {r['idx']: r for r in res['recs']}
     out = []
-    for clause, eid, detail, key in raw:
+    for c, e, d, key in raw:
         sig = None
-        if clause == 'zero-height-float':
+        if c == 'zero-height-float':
             sig = 'zero-height-float-placed-at-page-origin'                      # F39
-        elif believed is not None and key not in believed:
-            # the alarm disappears when the floats re-aligned to the top of their line are put back where
-            # float.py placed them: F51 (the float itself, or a later box laid out against the recorded position)
-            sig = 'inline-float-realigned-to-line-top'
-        elif believed_xy is not None and key not in believed_xy:
-            # ... and likewise for the floats moved sideways with the text of their line (text-align, rtl)
-            sig = 'inline-float-moved-with-line-offset'
-        elif clause == 'rule5-above-earlier-float' and pu and \
-                (byidx[key[2]].get('seq') is not None and byidx[key[1]].get('seq') is not None) and \
-                byidx[key[2]]['seq'] < byidx[key[1]]['seq'] and \
-                any(byidx[key[2]]['seq'] < byidx[q]['seq'] < byidx[key[1]]['seq'] and byidx[q]['y'] < byidx[key[2]]['y'] - EPS
-                    for q in pu if byidx[q].get('seq') is not None):
-            # placed after the earlier float, and a float placed between the two was re-aligned above the earlier
-            # one afterwards: find_float_position only looks at the last excluded shape (the list is no longer sorted)
-            sig = 'inline-float-realigned-to-line-top'
-        elif clause.startswith(('rule8', 'rule9')) and byidx[key[1]].get('stale'):
-            # the float was placed against a list of excluded shapes still holding the boxes of an earlier layout pass
-            # of its own line: only the choice of the position among the shapes (rules 8, 9) is explained by that
-            sig = 'float-relayout-stale-excluded-shapes'
-        elif clause == 'line-overlaps-float':
+        elif c == 'line-overlaps-float':
             line, f = byidx[key[1]], byidx[key[2]]
-            if f['parent'] == line['idx'] and line.get('float_after_content'):
-                # in-flow content of the line that holds the float, met after other content: F50
-                sig = 'inline-float-text-not-shifted'
-            else:
-                # F135: the line fits in the band at its height but not with its trailing space, and is placed
-                # with the position found lower
-                band = [e for e in floats if e['idx'] != line['idx'] and e['parent'] != line['idx'] and e['mh'] > EPS
-                        and v_overlap(line['y'], line['mh'], e['y'], e['mh'])]
-                lb = max([line['cbx']] + [e['x'] + e['mw'] for e in band if e['side'] == 'left'])
-                rb = min([line['cbx'] + line['cbw']] + [e['x'] for e in band if e['side'] == 'right'])
-                if line['cw'] <= rb - lb + EPS < line['cw'] + SPACE:
-                    sig = 'float-line-realigned-with-width-including-trailing-space'
-        out.append((clause, eid, detail, sig))
+            if f['parent'] == line['idx'] and line.get('float_after_content') and line['dir'] == 'rtl' and f['side'] == 'right':
+                # rtl counterpart of the repaired F50: the text of an rtl line is not moved to the left of a right
+                # float met in the middle of that line
+                sig = 'inline-float-rtl-text-not-shifted'
+            elif line.get('ws_shift') and not rect_overlap(line['cx'] - line['ws_shift'], line['y'], line['cw'], line['mh'],
+                                                           f['x'], f['y'], f['mw'], f['mh']):
+                # remove_last_whitespace moved the children of this rtl line by the width of the stripped space as if
+                # the space were at the left end of the text, but the text is left-to-right script (the space was at
+                # its right end): the overlap is exactly that displacement
+                sig = 'rtl-line-ltr-text-shifted-by-stripped-space'
+        out.append((c, e, d, sig))
+    for r in res['recs']:
+        if r['kind'] == 'float' and r.get('placed') and byidx.get(r['parent'], {}).get('kind') == 'line' and r['bh'] >= EPS:
+            if abs(r['x'] - r['placed'][0]) > EPS or abs(r['y'] - r['placed'][1]) > EPS:
+                out.append(('float-moved-after-placement', r['id'], ((r['x'], r['y']), tuple(r['placed'])), None))
     return out
 
 
@@ -793,10 +737,14 @@ def queue_sim(room, items):
         if it[0] == 'T':
             pos += it[1]; trail = it[2]
         else:
-            if it[1] - (trail or 0) > maxx - pos or wait:
+            if it[2] - (trail or 0) > maxx - pos or wait:
                 wait.append(k)
             else:
-                now.append(k); maxx -= it[2]
+                now.append(k)
+                if it[1] and max(it[3], 0) != 0:
+                    pos += max(it[3], 0)
+                else:
+                    maxx -= it[3]
             k += 1
     return pos, maxx, trail, now, wait
 
@@ -815,9 +763,10 @@ def gen_queue_doc(rng):
         for k in range(rng.randint(2, 4)):
             width = max(5, rng.choice([room - 10, room, room + 10, room - 30, W, W + 20, 10, 20, 30]))
             tag = rng.choice(['span', 'span', 'div'])
+            side = rng.choice(['left', 'right'])
             html.append('<%s id="f%d" style="float:%s;width:%dpx;height:%dpx"></%s>' % (
-                tag, k, rng.choice(['left', 'right']), width, rng.choice([10, 15, 20, 30]), tag))
-            items.append(('F', width, width))
+                tag, k, side, width, rng.choice([10, 15, 20, 30]), tag))
+            items.append(('F', side == 'left', width, width))
             if width <= room and rng.random() < 0.7:
                 room -= width
             if rng.random() < 0.35:
@@ -847,7 +796,7 @@ def queue_observed(doc, res):
 
 
 def coq_queue_case(doc, obs):
-    its = '; '.join(('Txt %s %s' % (qlit(i[1]), qlit(i[2]))) if i[0] == 'T' else ('Flt %s %s' % (qlit(i[1]), qlit(i[2])))
+    its = '; '.join(('Txt %s %s' % (qlit(i[1]), qlit(i[2]))) if i[0] == 'T' else ('Flt %s %s %s' % (blit(i[1]), qlit(i[2]), qlit(i[3])))
                     for i in doc['items'])
     return '(%s, [%s], [%s])' % (qlit(doc['room']), its, '; '.join('(%d%%nat, %s)' % (k, blit(b)) for k, b in obs))
 
@@ -902,8 +851,6 @@ def check_float_monitor(S, rng, thorough):
                 'and inside paragraphs, with paragraphs, overflow:hidden roots, tables, one nested narrower block; '
                 'containers 150/200/320px; every float judged by the nine rules of 9.5.1 against all earlier floats and '
                 'lines, every line/root/table against every float', 'floats')
-    # floats met inside paragraphs: two open findings (F50, F51) live there; alarms are attributed to them only when
-    # their mechanism is observed in that very render
     docs = [{'html': gen_float_doc(rng, inline_floats=True)} for _ in range(600 if thorough else 120)]
     S.add_monitor('render-floats-inline', 'render_floats', docs,
                 lambda d, o: (judge_floats(o), sum(1 for r in o['recs'] if r['kind'] == 'float')),
@@ -915,8 +862,8 @@ def check_float_monitor(S, rng, thorough):
                 'words, single words between them), widths around the room left on the line (room-30, room-10, room, '
                 'room+10, block width, wider than the block, small), left/right mixed, ltr/rtl, margins, sometimes a '
                 'block-level float before the paragraph; floats judged in SOURCE order by the nine rules (rule 5 over the '
-                'floats of one line, inside the containing block, no overlap), alarms attributed one by one to F50 / F51 / '
-                'F135 by their mechanism', 'floats')
+                'floats of one line, inside the containing block, no overlap), and each float must stay where float.py '
+                'placed it', 'floats')
 
 
 # ------------------------------------------------------------------------- monitor: absolutely positioned
@@ -964,6 +911,11 @@ def gen_abs_doc(rng):
             sp['maxw'] = rng.choice([30, 60, 120]); st.append('max-width:%dpx' % sp['maxw'])
         if not replaced and rng.random() < 0.15:
             sp['minw'] = rng.choice([50, 100, 200]); st.append('min-width:%dpx' % sp['minw'])
+        sp['minh'], sp['maxh'] = 0, None
+        if not replaced and rng.random() < 0.2:
+            sp['maxh'] = rng.choice([20, 50, 120]); st.append('max-height:%dpx' % sp['maxh'])
+        if not replaced and rng.random() < 0.15:
+            sp['minh'] = rng.choice([40, 90, 200]); st.append('min-height:%dpx' % sp['minh'])
         if rng.random() < 0.3:
             st.append('padding:%dpx %dpx' % (rng.choice([0, 2, 5]), rng.choice([1, 4])))
         if rng.random() < 0.3:
@@ -1117,11 +1069,19 @@ def judge_abs(doc, res):
         bv = dict(s=resolve(sp['t'], cbh), e=resolve(sp['b'], cbh), z=zv, ms=resolve(sp['mt'], cbw),
                   me=resolve(sp['mb'], cbw), pad=r['padv'])
         pv = dict(x=r['y'], ms=r['mt'], me=r['mb'], size=H)
+        if zv is None and bv['s'] is not None and bv['e'] is not None:
+            # height auto with top and bottom specified: the height that fills the rest, then min/max-height (a
+            # negative one is clamped by min-height: 0); when clamped, CSS 2.1 10.7 applies the rules again with the
+            # clamp value as the specified height
+            tentative = cbh - bv['s'] - bv['e'] - bv['pad'] - (bv['ms'] or 0) - (bv['me'] or 0)
+            clamped = tentative
+            if sp.get('maxh') is not None and clamped > sp['maxh']:
+                clamped = float(sp['maxh'])
+            if clamped < sp.get('minh', 0):
+                clamped = float(sp.get('minh', 0))
+            if abs(clamped - tentative) > tol:
+                bv = dict(bv, z=clamped)
         vfails = axis_spec_py(False, True, cby, cbh, bv, pv, tol)
-        if zv is None and bv['s'] is not None and bv['e'] is not None and \
-                bv['s'] + bv['e'] + (bv['ms'] or 0) + (bv['me'] or 0) + bv['pad'] > cbh:
-            # nothing left for the height: it is 0 and bottom gives way (over-constrained)
-            vfails = [f for f in vfails if f != 'constraint:end-offset']
         for f in vfails[:1]:
             bad.append(('abs-vertical:' + f, r['id'], dict(spec=sp, box=r)))
     return bad, n
@@ -1131,16 +1091,9 @@ def check_abs_monitor(S, rng, thorough):
     docs = [gen_abs_doc(rng) for _ in range(2500 if thorough else 500)]
     S.add_monitor('render-absolute', 'render_abs', docs, judge_abs,
                 'absolutely positioned blocks and images, left/right/width/top/bottom/height auto|px|%, margins auto|px '
-                '(negative too), min/max-width, padding/border, in static/relative/absolute ancestors (depth<=4) with '
+                '(negative too), min/max-width, min/max-height, padding/border, in static/relative/absolute ancestors (depth<=4) with '
                 'padding/border/offsets, ltr/rtl parents; judged against the padding box of the nearest positioned '
-                'ancestor (else the page area) by the Python port of axis_spec_b', 'abs', resign=abs_resign)
-
-
-def abs_resign(clause, res, doc, eid):
-    sp = doc['specs'].get(eid, {})
-    if clause.startswith('abs-vertical') and (sp.get('maxh') is not None or sp.get('minh')):
-        return 'abs-height-min-max-not-reapplied'       # F52 (only the dedicated corpus case uses min/max-height)
-    return None
+                'ancestor (else the page area) by the Python port of axis_spec_b', 'abs')
 
 
 # ------------------------------------------------------------------------------------- monitor: fixed boxes
@@ -1346,21 +1299,21 @@ MONITORS = {
     'render-floats-inline': ('render_floats', lambda d, o: (judge_floats(o), 0), 'floats', None),
     'render-floats-midline': ('render_floats', lambda d, o: (judge_floats(o), 0), 'floats', None),
     'inline-float-queue': ('render_floats', lambda d, o: (judge_queue_replay(d, o), 0), 'queue', None),
-    'render-absolute': ('render_abs', lambda d, o: judge_abs(d, o), 'abs', abs_resign),
+    'render-absolute': ('render_abs', lambda d, o: judge_abs(d, o), 'abs', None),
     'render-fixed': ('render_positions', lambda d, o: judge_fixed(d, o), 'fixed', None),
     'render-relative': ('render_relative_pair', lambda d, o: judge_rel(d, o), 'relative', None),
 }
 
 
 def check_corpus(S):
-    """minimised cases replayed first: the witnesses of the open findings (their alarms carry the finding's
-    signature through the same attribution as the random streams)."""
+    """minimised cases replayed first: the witness of the open finding F39 (its alarm carries the finding's
+    signature) and the witnesses of the repaired findings F50, F51, F52 as regression cases (no attribution)."""
     d = os.path.join(common.VERIF, 'corpus', 'C11')
     files = sorted(f for f in os.listdir(d) if f.endswith('.json')) if os.path.isdir(d) else []
     for f in files:
         case = json.load(open(os.path.join(d, f)))
         fn, judge, prefix, resign = MONITORS[case['stream']]
-        S.add_monitor('corpus:' + f, fn, [case['doc']], judge, 'corpus/C11/%s: witness of open finding %s, judged by the '
+        S.add_monitor('corpus:' + f, fn, [case['doc']], judge, 'corpus/C11/%s: witness of finding %s, judged by the '
                       'monitor of stream %s' % (f, case.get('finding'), case['stream']), prefix, resign=resign)
 
 
@@ -1377,7 +1330,7 @@ def check(run):
                         'the glue absolute_block / absolute_box_layout / float_layout (percent resolution, translate, '
                         'block_container_layout of the content) is monitored by full renders, not proved',
                         'line shortening next to floats goes through Pango widths: monitored on rendered text boxes',
-                        'floats met inside a line box (inline.py) are monitored only; two open findings live there (F50, F51)',
+                        'floats met inside a line box (inline.py): the waiting queue is modelled (C11Queue) and tied by renders, the rest is monitored',
                         'fixed boxes identical on every page and relative positioning moving nothing else: monitored '
                         '(metamorphic renders); the proved statements are about the pure models']
     S = Streams()
